@@ -861,6 +861,7 @@ pub fn do_special(w: &mut World, kind: &str, a: u64, b: u64, c: u64) -> VResult<
         "branch" => crate::c17::do_branch(w, a as usize, b, c),
         "forge" if b >= 14 => crate::c10::do_forge_update(w, a as usize, 0, c as usize, None),
         "update_clash" => crate::c10::do_update_clash(w, a as usize, 0, b),
+        "forge_ext" => crate::c10::do_forge_ext_update(w, 0, a as usize),
         "forge" => crate::c10::do_forge(w, a as usize, 0, b, c as usize),
         "sflip" => crate::codec::do_stored_flip(w, a as usize, c as usize, b),
         "observe" => crate::observer::do_observe(w, a as usize, b),
